@@ -93,6 +93,7 @@ var c12ByBody = map[string]frameSpec{}
 
 func c12Run(c *ev.Ctx, k c12Case, single bool) {
 	c.Eval()
+	c.Crumb(k)
 	stream, frames := c12Build(k)
 	w, err := newYWorld(true)
 	if err != nil {
@@ -218,7 +219,7 @@ func c12Run(c *ev.Ctx, k c12Case, single bool) {
 }
 
 func checkC12(c *ev.Ctx) {
-	c.Rule("yubiagent.ServeAgent called synchronously on (bytes.Reader, bytes.Buffer) with the real *server (NewServer through the dial seam, remote mode) over the real shim and the harness underlying agent. Streams: every message code 0..255 x {code only, +00, +FF, +4 zero bytes} (wait frames use awaited codes 40/255), the empty frame, ~90 grammar-derived canonical and truncated frames (both add-hardware-certificate encodings, slot names, wait, every standard agent request incl. constraint bytes, raw-forward requests; a size ladder of well-formed sign / raw / add requests with bodies of 64 KiB, 256 KiB, 256 KiB+1, 1 MiB, 4 MiB and exactly 16 MiB, alone and between small requests), prefix pathologies (0..3 prefix bytes; declared 1, 2, 16MiB, 16MiB+1, 2^31, 2^32-1 with 0/1/all body bytes), every ordered pair of a 37-piece representative set, every piece on a SECOND connection after an earlier connection to the same server ended in one of 8 ways, every triple over a 20-piece subset (thorough: all triples, quadruples over 14). Oracle: no crash, framed output, one response per well-formed request in order with the expected type/content, service ends only at malformed frames and then with an error, clean end returns nil, allocation bound for oversized declarations. non-trivial = well-formed request answered; distinct by (frame, position)")
+	c.Rule("yubiagent.ServeAgent called synchronously on (bytes.Reader, bytes.Buffer) with the real *server (NewServer through the dial seam, remote mode) over the real shim and the harness underlying agent. Streams: every message code 0..255 x {code only, +00, +FF, +4 zero bytes} (wait frames use awaited codes 40/255), the empty frame, ~90 grammar-derived canonical and truncated frames (both add-hardware-certificate encodings, slot names, wait, every standard agent request incl. constraint bytes, raw-forward requests; a size ladder of well-formed sign / raw / add requests with bodies of 64 KiB, 256 KiB, 256 KiB+1, 1 MiB, 4 MiB and exactly 16 MiB, alone and between small requests; every ordered pair over 8 and triple over 5 medium/large requests on one connection), prefix pathologies (0..3 prefix bytes; declared 1, 2, 16MiB, 16MiB+1, 2^31, 2^32-1 with 0/1/all body bytes), every ordered pair of a 37-piece representative set, every piece on a SECOND connection after an earlier connection to the same server ended in one of 8 ways, every triple over a 20-piece subset (thorough: all triples, quadruples over 14). Oracle: no crash, framed output, one response per well-formed request in order with the expected type/content, service ends only at malformed frames and then with an error, clean end returns nil, allocation bound for oversized declarations. non-trivial = well-formed request answered; distinct by (frame, position)")
 	c.Assume("frames are classified well-formed only when they are canonical encodings produced by the harness grammar (x/crypto's own client for standard requests); for everything else either 'answered' or 'connection ended with an error' is accepted", "awaited codes below 40 block by design and are explored under C20")
 	c12Frames = map[string]frameSpec{}
 	gf := grammarFrames()
@@ -254,6 +255,28 @@ func checkC12(c *ev.Ctx) {
 		n++
 	}
 	c.Sample(c12Case{Pieces: []c12Piece{{Frame: "hardcert-legacy-held-key"}}})
+	// several large requests on ONE connection, in every order of sizes (per-connection buffers reused across requests)
+	{
+		multi := []string{"sign-k1-body5000", "sign-k1-body6000", "lock-pass6000", "unlock-wrong-pass7000-embedded-frames", "sign-cert", "sign-k1-body65536", "sign-k1-body262145", "sign-k1-body1048576"}
+		for _, a := range multi {
+			for _, b := range multi {
+				if _, ok := c12Frames[a]; !ok {
+					c.Violation("C12:harness:unknown-frame", a, nil)
+					continue
+				}
+				c12Run(c, c12Case{Pieces: []c12Piece{{Frame: a}, {Frame: b}, {Frame: "list"}}, Note: "two large requests on one connection"}, false)
+				n++
+			}
+		}
+		for _, a := range multi[:5] {
+			for _, b := range multi[:5] {
+				for _, d := range multi[:5] {
+					c12Run(c, c12Case{Pieces: []c12Piece{{Frame: a}, {Frame: b}, {Frame: d}, {Frame: "list"}}, Note: "three large requests on one connection"}, false)
+					n++
+				}
+			}
+		}
+	}
 	// large well-formed requests inside a stream: answered once, later responses stay in order
 	for _, f := range gf {
 		if len(f.Body) >= 64<<10 {
